@@ -101,10 +101,12 @@ def main():
         "engines": [
             {"name": "tlc", "path": "/opt/veriftools/tla/tla2tools.jar", "serves_properties": sorted(CHECKS),
              "kind_free_text": "TLC 1.8 explicit-state model checker: exhaustive design-level checks of spec/*.tla and batch trace validation of implementation records (spec/Trace*.tla)"},
+            {"name": "tlapm", "path": "/usr/local/bin/tlapm", "serves_properties": ["C09"],
+             "kind_free_text": "TLA+ proof system: spec/LoopCoreProofs.tla (44 obligations) - unbounded safety of the control skeleton LoopCore that TiccLoop and TiccHeap are model-checked to refine; every obligation must be proved"},
         ],
         "checks": [],
         "not_applicable": [],
-        "notes": "All verdicts are produced by TLC on explicit TLA+ specifications under /verif/spec; see DESIGN.md. Exit 2 = machinery failure (never a violation).",
+        "notes": "All verdicts are produced by TLC on explicit TLA+ specifications under /verif/spec (plus one TLAPS proof run by C09); see DESIGN.md. Exit 2 = machinery failure (never a violation).",
     }
     for pid in props:
         if pid in CHECKS:
